@@ -73,13 +73,16 @@ impl<T: GenServer> GenServerProcess<T> {
             CallResult::Reply(reply) => {
                 let reply_msg = OwnedTerm::Tuple(vec![OwnedTerm::Reference(reference), reply]);
 
+                // A caller that has ended in the meantime cannot take the reply: like a reply to a dead
+                // process in Erlang this is not an error of the server, which must stay up for its
+                // other callers.
                 if let Some(handle) = self.registry.get(&from_pid).await {
-                    handle
+                    let _ = handle
                         .send(Message::Regular {
                             from: None,
                             body: reply_msg,
                         })
-                        .await?;
+                        .await;
                 }
 
                 Ok(())
